@@ -179,10 +179,16 @@ func (mo *c18Mon) runScenario(idx int) {
 
 	// ---- mutation monitor ------------------------------------------------------
 	for ai, ac := range acc {
+		// donor of a genuine signature made over OTHER content (two generated
+		// assertions can be byte-identical in content; a second genuine
+		// signature by the rightful key over the very same bytes is not tampering)
 		var donor []byte
-		if len(acc) > 1 {
-			d := acc[(ai+1+rng.Intn(len(acc)-1))%len(acc)]
-			_, donor = d.it.a.Signature()
+		myContent, _ := ac.it.a.Signature()
+		for off, j := rng.Intn(len(acc)), 0; j < len(acc) && donor == nil; j++ {
+			dc, ds := acc[(off+j)%len(acc)].it.a.Signature()
+			if !bytes.Equal(dc, myContent) {
+				donor = ds
+			}
 		}
 		mo.mutate(sc, ac.it, ac.now, donor, ai < mo.sweepsPerScen, rng)
 	}
